@@ -50,7 +50,18 @@ func isKnownFunc(name string) bool {
 	if len(knownFuncs) == 0 {
 		return true // table missing: expand nothing
 	}
+	if alwaysSplice[name] {
+		return false
+	}
 	return knownFuncs[name]
+}
+
+// alwaysSplice: tiny helpers of the pinned tree that the normal form has spliced into
+// their callers as well, so that a later edit that inlines (or re-extracts, or renames)
+// them changes nothing for the rules, which are written against the flat callers.
+var alwaysSplice = map[string]bool{
+	"filippo.io/age/internal/stream.setLastChunkFlag": true,
+	"filippo.io/age/internal/stream.nonceIsZero":      true,
 }
 
 // transparent: an in-module helper the rules do not know.
